@@ -249,7 +249,7 @@ def _sjobs(flavor, cfgs, tiers=None, prefix=''):
 _C13_QUICK = [
     'pool-ordered 1 0 2', 'pool-ordered 1 1 3', 'pool-ordered 1 2 3', 'pool-ordered 2 3 2',
     'pool-unordered 1 1 3', 'pool-unordered 1 3 2', 'pool-unordered 2 3 2',
-    'pool2-ordered 2 1 2', 'pool2-unordered 1 2 2', 'pool2t-unordered 2 1 1', 'pool2t-ordered 2 1 1',
+    'pool2-ordered 2 1 2', 'pool2-unordered 1 2 2', 'pool2t-unordered 2 1 1', 'pool2t-ordered 2 1 1', 'pool2t-unordered 1 1 1',
     'writer 1 0 2', 'writer 1 2 3', 'writer 2 3 2', 'writer 2 2 2 comp=3', 'writer2 2 2 1', 'writer2t 2 1 1',
     'sorter 1 2 3', 'sorter 2 3 2', 'sorter 2 0 2',
 ]
@@ -331,13 +331,13 @@ _CKS = H('h_cksum.c', 'asan', tu_flags={'mtbl/reader.c': ['-Dmmap=vf_mmap', '-Dm
 CHECKS['C12'] = dict(
     level=FE, engine='envshim',
     technique='exhaustive enumeration of bit-flip patterns (all single, double and triple flips; every burst with first and last flipped bit <=12 apart; pattern families for spans 13-32) in every block region of seed files, checked against mtbl_verify\'s own verify_file() and a verify_checksums reader',
-    text='Part 1: every file of the K9 structure sweep (depth<=3, six algorithms, prefix 0/13) must be reported OK by verify_file() of src/mtbl_verify.c (compiled into the harness, output captured) and drain completely through a verify_checksums reader. Part 2: on six seed files (writer-made: one tiny block, three ~600-byte blocks with lz4 / uncompressed with prefix; independently encoded: three tiny blocks in v2, v1 and zlib) every flip pattern of the families above is applied inside each block\'s checksum+stored-bytes region, data blocks and index block alike; verify_file must never print OK or return true, and a verify_checksums reader iterating from the start or doing get() on the damaged block\'s keys must stop on its assertion before handing out any entry of that block.',
-    jobs=[dict(name='intact', spec=_CKS, args=['intact'])] + [dict(name='damage-seed%d' % k, spec=_CKS, args=['damage', str(k)]) for k in range(6)],
+    text='Part 1: every file of the K9 structure sweep (depth<=3, six algorithms, prefix 0/13) must be reported OK by verify_file() of src/mtbl_verify.c (compiled into the harness, output captured) and drain completely through a verify_checksums reader. Part 2: on seven seed files (writer-made: one tiny block, three ~600-byte blocks with lz4 / uncompressed with prefix; independently encoded: three tiny blocks in v2, v1 and zlib, and eight one-entry blocks whose stored lengths cover every residue modulo 8; plus eight writer-made one-entry tables with value lengths 0..7, so that blocks of every length modulo 8 carry the checksum computed by the library itself). Every undamaged seed must itself verify. every flip pattern of the families above is applied inside each block\'s checksum+stored-bytes region, data blocks and index block alike; verify_file must never print OK or return true, and a verify_checksums reader iterating from the start or doing get() on the damaged block\'s keys must stop on its assertion before handing out any entry of that block.',
+    jobs=[dict(name='intact', spec=_CKS, args=['intact'])] + [dict(name='damage-seed%d' % k, spec=_CKS, args=['damage', str(k)]) for k in range(7)] + [dict(name='damage-writer-tiny', spec=_CKS, args=['damage', '10', '17'])],
     states_key='states', transitions_key='transitions', traces_key='cases',
     rule='one case = (seed, block region, flip pattern); signature = (seed, batch)',
     bounds={'quick': 'triples: all for regions <=260 bits, else within a 40-bit window; pairs: all for regions <=1024 bits, else all within 64 bits plus a grid; bursts: every position (every 16th for regions >1024 bits) x all 2^(span-2) patterns for span<=12, 3+ pattern families for span 13..32',
             'thorough': 'triples: all for regions <=700 bits; pairs within 256 bits plus a finer grid; bursts at every position'},
-    nonzero=['cases', 'intact_files_verified', 'verify_rejected', 'reader_stopped'],
+    nonzero=['cases', 'intact_files_verified', 'intact_seeds_verified', 'verify_rejected', 'reader_stopped'],
     assumptions=['damage to the length prefix is outside the statement', 'which assertion stops the process is not prescribed'],
     budget={'quick': 420, 'thorough': 3000},
 )
@@ -363,11 +363,11 @@ _RES = H('h_res.c', 'asan', tu_flags={'mtbl/reader.c': ['-Dmmap=vf_mmap', '-Dmun
 CHECKS['C18'] = dict(
     level=MC, engine='bfs',
     technique='exhaustive enumeration of API scenario scripts with every abandon point and both destruction orders; each history is executed three times and process-wide ledgers (sanitizer allocator bytes in use, open descriptors, reader mappings through an mmap seam, temp-dir listing) must not grow between repetitions; pooled-sorter-destroyed-in-flight under the schedule explorer with LeakSanitizer',
-    text='Six scenario families (writer with refused adds; reader on table / non-table / short / empty file with all iterator kinds advanced 0, 1, all; merger with a merge callback failing per key and mtbl_source_write; sorter with 1-3 chunks, pooled or not, merge callback failing inside a chunk or in the final merge, iterator or mtbl_sorter_write path; fileset with dup, open iterators, deferred reload_now, partition; pooled writers sharing a pool) are cut at EVERY point of their script, all live objects are destroyed (two orders), and the whole history is repeated: a repetition-to-repetition growth of heap bytes, descriptors, mappings or temp files is a leak, independent of reachability. Scenarios that the library stops by assertion are not histories that end with every object destroyed and are only counted. Destroying a pooled sorter while chunk jobs are in flight is explored under every schedule with <=2 preemptions.',
+    text='Six scenario families (writer with refused adds; reader on table / non-table / short / empty file with all iterator kinds advanced 0, 1, all; merger with a merge callback failing per key and mtbl_source_write; sorter with 1-3 chunks, without pool / with a 2-thread pool / with a zero-thread pool object, merge callback failing inside a chunk or in the final merge, iterator or mtbl_sorter_write path; fileset with dup, open iterators, deferred reload_now, partition; pooled writers sharing a pool) are cut at EVERY point of their script, all live objects are destroyed (two orders), and the whole history is repeated: a repetition-to-repetition growth of heap bytes, descriptors, mappings, threads or temp files is a leak, independent of reachability. Scenarios that the library stops by assertion are not histories that end with every object destroyed and are only counted. Destroying a pooled sorter while chunk jobs are in flight is explored under every schedule with <=2 preemptions.',
     jobs=[dict(name='scenarios', spec=_RES, args=[])] + [dict(j, env={'ASAN_OPTIONS': 'detect_leaks=1:abort_on_error=0:exitcode=77:handle_segv=0:handle_sigbus=0'}) for j in _sjobs('asan', ['sorter-destroy 2 2 2', 'sorter-destroy 1 3 2', 'sorter-destroy 2 3 1'], prefix='inflight:')],
     states_key='states', transitions_key='transitions', traces_key='cases', evals_key='cases',
     rule='one case = (scenario family, variant, abandon point, destruction order); signature = (family, variant, order)',
-    bounds={'quick': '6 families, 50 variants, every abandon point (up to 30 per script), 2 destruction orders; in-flight destroy: P<=2, J<=3, preemption bound 2',
+    bounds={'quick': '6 families, ~70 variants, every abandon point (up to 30 per script), 2 destruction orders; in-flight destroy: P<=2, J<=3, preemption bound 2',
             'thorough': 'same scripts (they are exhaustive as defined)'},
     nonzero=['cases', 'scenarios_checked_leak_free', 'scenarios_stopped_by_assertion', 'leak_checks'],
     assumptions=['heap accounting is the sanitizer allocator\'s bytes-in-use counter; steady state is reached after the first repetition (one-time libc/library caches)'],
